@@ -39,10 +39,10 @@ func (c13) Plan(tier string, seed int64) []mon.Workload {
 }
 
 type c13Case struct {
-	Names   []string
-	Stmts   map[string][]*gt.T
-	Srcs    map[string]string
-	Point   *ref.Point
+	Names []string
+	Stmts map[string][]*gt.T
+	Srcs  map[string]string
+	Point *ref.Point
 }
 
 func (c13) build(c *mon.Ctx) c13Case {
